@@ -37,3 +37,6 @@ Definition ex_words : list str := map B [ "prog"; "a b"; ""; "say ""hi"""; "back
 Definition ex_cmdline : str := B "prog ""a b"" """" x\y ""q\""r\s"" tail\".
 
 Definition ex_env : list (str * str) := [ (B "HOME", B "/h"); (B "K", []) ].
+
+(* round 3: an environment with an entry that has no '=' and one with an empty value *)
+Definition ex_environ : list str := map B [ "HOME=/h"; "junk"; "A=1"; "E=" ]%string.
